@@ -280,11 +280,20 @@ func (e *Engine) summariseCall(st *State, fn *ssa.Function, args, bind []Value, 
 		}
 		return out, true
 	}
-	// group by result shape
+	// group by result shape; for the generated validators any two non-nil errors are the same
+	// outcome (the caller only propagates them), so the first one stands for all
+	coarseErr := e.summariseByPattern(fn)
 	groups := map[string][]summaryEnd{}
 	var order []string
 	for _, en := range ends {
 		k := shapeKey(en.res)
+		if iv, ok := en.res.(IfaceV); ok && coarseErr {
+			if iv.t == nil {
+				k = "I:nil"
+			} else {
+				k = "I:err"
+			}
+		}
 		if _, ok := groups[k]; !ok {
 			order = append(order, k)
 		}
@@ -302,7 +311,18 @@ func (e *Engine) summariseCall(st *State, fn *ssa.Function, args, bind []Value, 
 		for i, en := range g {
 			vals[i] = en.res
 		}
-		res := e.mergeInto(m, vals, eqs)
+		var res Value
+		if iv, ok := vals[0].(IfaceV); ok && coarseErr && iv.t != nil {
+			res = vals[0]
+			// objects the representative error refers to must exist in the merged heap
+			for id, v := range g[0].st.heap.objs {
+				if _, ok := m.heap.objs[id]; !ok {
+					m.heap.objs[id] = v
+				}
+			}
+		} else {
+			res = e.mergeInto(m, vals, eqs)
+		}
 		var disj []*Term
 		for i, en := range g {
 			var delta []*Term
@@ -337,4 +357,14 @@ func (e *Engine) summariseCall(st *State, fn *ssa.Function, args, bind []Value, 
 		return nil, false
 	}
 	return out, true
+}
+
+// summariseByPattern: the generated validators (method "validate" of every configuration
+// message) are pure and consist of long sequences of independent checks that accumulate errors;
+// summarising them (result: nil or some error) avoids 2^checks paths.
+func (e *Engine) summariseByPattern(fn *ssa.Function) bool {
+	if fn.Pkg == nil || fn.Name() != "validate" {
+		return false
+	}
+	return strings.HasPrefix(fn.Pkg.Pkg.Path(), modPath+"/config/gen/go/")
 }
